@@ -21,6 +21,7 @@ func init() {
 			ruleRecoverClosure(c, "R2")
 			ruleRecoverOptionFlow(c, "R3")
 			ruleRecoverRelease(c, "R4")
+			ruleLocksSurviveRecovery(c, "R5")
 		},
 	})
 	register(&Spec{
